@@ -593,6 +593,7 @@ func runC18(w *World, r *Report) {
 	}
 
 	shareRule(w, r, "C18.tool-frames-keep-their-call", "the per-call converter of the tools node's stream form writes no variable captured from the call (the call id heads EVERY frame): the return-directly node filters the tools stream frame by frame on the id", 5, "C09", "C09.capture-write")
+	shareRule(w, r, "C18.model-stream-closed-once-per-copy", "a copy of the model's stream counts as closed once however often Close is called on it: the source is closed when every copy is closed, not when the checker's copy was closed twice (the tools node / END would read a truncated stream under Stream only)", 1, "C08", "C08.copy-cell")
 
 	// ---- the default stream tool-call checker: an empty leading chunk decides nothing
 	r.Rule("C18.default-checker", "the default stream checkers answer 'no tool call' only at end of stream or on a chunk with content; 'tool call' only on a chunk with tool calls", 4)
